@@ -799,6 +799,119 @@ def _is_raising_lookup(ev: S.Event) -> bool:
     return ev.kind == "call" and ev.name in S.RAISING_NX and any(m[0] == "lib" and m[1].startswith("networkx") for m in members(ev.recv_type))
 
 
+def _nx_typed(ctx: Ctx, f: FuncInfo, e: ast.expr) -> bool:
+    try:
+        t = ctx.T.expr(f, e)
+    except Exception:  # noqa: BLE001
+        return False
+    return any(m[0] == "lib" and m[1].startswith("networkx") for m in members(t))
+
+
+def graph_tables(ctx: Ctx, ci: ClassInfo) -> dict[str, str]:
+    """Fields of a graph class that are lookup tables *of the graph*: assigned only while the object is constructed, from an
+    expression over the networkx graph the class wraps (its adjacency / nodes / edges), and never changed afterwards.  A key
+    found in such a table is a node (an edge) of the graph.  field -> text of the defining expression."""
+    cache = ctx.__dict__.setdefault("_graph_tables", {})
+    if ci.fq in cache:
+        return cache[ci.fq]
+    init = ctx.repo.lookup_method(ci, "__init__")
+    methods = [m for c in ctx.repo.mro(ci) for m in [*c.methods.values(), *c.extra_methods] if not isinstance(m.node, ast.Lambda)]
+    # methods that only run during construction: __init__ and private helpers it (transitively) calls that nothing else calls
+    ctor_only = {init.fq} if init is not None else set()
+    changed = True
+    while changed:
+        changed = False
+        for m in methods:
+            if m.fq in ctor_only or not m.name.startswith("_") or m.name.startswith("__"):
+                continue
+            callers = [g for g in methods if any(isinstance(c, ast.Call) and isinstance(c.func, ast.Attribute) and c.func.attr == m.name for c in ast.walk(g.node))]
+            if callers and all(g.fq in ctor_only for g in callers):
+                ctor_only.add(m.fq)
+                changed = True
+    stores: dict[str, list[tuple[FuncInfo, ast.expr | None]]] = {}
+    mutated: set[str] = set()
+    for m in methods:
+        if not m.param_names:
+            continue
+        me = m.param_names[0]
+        is_me = lambda x: isinstance(x, ast.Attribute) and isinstance(x.value, ast.Name) and x.value.id == me  # noqa: E731
+        for n in own_nodes(m.node):
+            if isinstance(n, (ast.Assign, ast.AnnAssign)):
+                for t in (n.targets if isinstance(n, ast.Assign) else [n.target]):
+                    if is_me(t):
+                        stores.setdefault(t.attr, []).append((m, n.value))
+            elif isinstance(n, ast.AugAssign) and is_me(n.target):
+                mutated.add(n.target.attr)
+            elif isinstance(n, ast.Call) and isinstance(n.func, ast.Attribute) and n.func.attr in S.COLL_MUTATORS and is_me(n.func.value) and m.fq not in ctor_only:
+                mutated.add(n.func.value.attr)
+            elif isinstance(n, ast.Subscript) and isinstance(n.ctx, (ast.Store, ast.Del)) and is_me(n.value) and m.fq not in ctor_only:
+                mutated.add(n.value.attr)
+            elif isinstance(n, ast.Delete):
+                for t in n.targets:
+                    if is_me(t):
+                        mutated.add(t.attr)
+    out: dict[str, str] = {}
+    for field, sts in stores.items():
+        if field in mutated or not all(m.fq in ctor_only and v is not None for m, v in sts):
+            continue
+        if all(any(isinstance(x, ast.Attribute) and _nx_typed(ctx, m, x) for x in ast.walk(v)) for m, v in sts):
+            if not any(_nx_typed(ctx, m, v) for m, v in sts):  # the wrapped graph itself is not a table
+                out[field] = norm(sts[0][1], 50)
+    cache[ci.fq] = out
+    return out
+
+
+def _table_of(ctx: Ctx, ev: S.Event, recv_node: ast.expr | None) -> str | None:
+    """Name of the graph table (see graph_tables) that `recv_node` - the container expression of the event - denotes."""
+    f = ev.ctx
+    if f is None or f.cls is None or not isinstance(recv_node, ast.Attribute) or not f.param_names:
+        return None
+    if not (isinstance(recv_node.value, ast.Name) and recv_node.value.id == f.param_names[0]):
+        return None
+    return recv_node.attr if recv_node.attr in graph_tables(ctx, f.cls) else None
+
+
+def certifiers(ctx: Ctx, sym: S.Sym, p: str) -> list[tuple[S.Event, Formula, str]]:
+    """Events that prove that the value derived from parameter `p` names something the graph knows, each with the condition
+    under which it has happened AND has proved it, and a description:
+      * networkx' raising successors / predecessors / neighbors (unknown node: NetworkXError) - unless a handler around the
+        call swallowed the error (`exc#n.i` = handler i of try n was entered);
+      * a hit in a lookup table of the graph (graph_tables): `table[k]` that did not raise into a swallowing handler,
+        `table.get(k)` that is not None, `k in table` that holds."""
+    out: list[tuple[S.Event, Formula, str]] = []
+
+    def not_swallowed(ev: S.Event, catching: set[str]) -> Formula:
+        return f_and([f_not(atom(f"exc#{n}.{i}")) for n, i, types in getattr(ev, "handler_entries", ()) if set(types) & catching and sym.handler_swallows.get((n, i), True)])
+
+    for ev in sym.events:
+        if not ev.args or ev.args[0] is None or sym.deps(ev.args[0]) != frozenset({p}):
+            continue
+        if _is_raising_lookup(ev):
+            out.append((ev, f_and([ev.cond, not_swallowed(ev, CATCHES_LOOKUP)]), f"networkx' raising {ev.name}()"))
+        elif ev.kind == "subscript" and isinstance(ev.node, ast.Subscript) and (t := _table_of(ctx, ev, ev.node.value)):
+            out.append((ev, f_and([ev.cond, not_swallowed(ev, {"KeyError", "LookupError", "Exception", "BaseException", "<bare>"})]), f"a hit in the graph's lookup table {t}"))
+        elif ev.kind == "call" and ev.name == "get" and len(ev.args) == 1 and isinstance(ev.node, ast.Call) and isinstance(ev.node.func, ast.Attribute) and isinstance(ev.result, Opq) and (t := _table_of(ctx, ev, ev.node.func.value)):
+            out.append((ev, f_and([ev.cond, f_not(atom(f"{ev.result.key} is None"))]), f"a hit in the graph's lookup table {t}"))
+        elif ev.kind == "member" and isinstance(ev.node, ast.Compare) and len(ev.node.comparators) == 1 and isinstance(ev.result, S.BoolV) and (t := _table_of(ctx, ev, ev.node.comparators[0])):
+            out.append((ev, f_and([ev.cond, ev.result.f]), f"a hit in the graph's lookup table {t}"))
+    return out
+
+
+def _handoffs(sym: S.Sym, p: str) -> list[S.Event]:
+    """Calls the symbolic run could not follow that received (a value derived from) `p`: the lookup may happen in there."""
+    out = []
+    for ev in sym.events:
+        if ev.kind != "call" or not isinstance(ev.result, Opq) or ev.result.kind != "call" or _is_raising_lookup(ev):
+            continue
+        vals = [a for a in [*ev.args, ev.recv] if a is not None]
+        if not any(p in sym.deps(a) for a in vals):
+            continue
+        ms = members(ev.recv_type)
+        if ev.recv_type[0] == "fn" or any(m[0] == "cls" for m in ms) or (ev.recv is None and ev.recv_type == ("unknown",)):
+            out.append(ev)
+    return out
+
+
 def run_lookups(ctx: Ctx, res: Result) -> None:
     repo = ctx.repo
     funcs = search_functions(ctx)
@@ -809,22 +922,23 @@ def run_lookups(ctx: Ctx, res: Result) -> None:
         if not rets:
             res.undecide("C13.R6", repo.key(fi, "returns"), "no normal return found in the symbolic run", where(fi, fi.node))
             continue
-        lookups = [ev for ev in sym.events if _is_raising_lookup(ev) and ev.args]
         kinds = {p: _filter_kind(ctx, fi, p) for p in fi.param_names}
         scalars = [p for p, k in kinds.items() if k == "scalar"]
         for p, k in kinds.items():
             if k not in ("scalar", "collection"):
                 continue
             n += 1
-            mine = [ev for ev in lookups if sym.deps(ev.args[0]) == frozenset({p})]
-            live = [ev for ev in mine if not swallowed(sym, ev, CATCHES_LOOKUP, rets)]
+            certs = certifiers(ctx, sym, p)
+            mine = [ev for ev, _c, _d in certs]
+            live = [(ev, c, d) for ev, c, d in certs if S.sat(c)]
             ok, detail, loc = False, "", where(fi, fi.node)
             if k == "scalar":
-                direct = [ev for ev in live if not ev.loops]
-                failing = [o for o in rets if not any(must(o.path, ev.path) for ev in direct)]
+                direct = [(ev, c, d) for ev, c, d in live if not ev.loops]
+                proved = f_or([c for _ev, c, _d in direct])
+                failing = [o for o in rets if not implies_path(o.path, proved)]
                 ok = not failing
                 if ok:
-                    detail = f"`{p}` reaches networkx' raising {direct[0].name}() on every path before the function returns"
+                    detail = f"`{p}` reaches {' / '.join(sorted({d for _e, _c, d in direct}))} on every path before the function returns"
                 else:
                     o = failing[0]
                     loc = where_o(o)
@@ -832,34 +946,46 @@ def run_lookups(ctx: Ctx, res: Result) -> None:
             else:
                 good = None
                 filtered_out = None
-                for ev in live:
-                    if not ev.loops:
-                        continue
-                    lc = ev.loops[0]
+                by_loop: dict[int, list] = {}
+                for ev, c, d in live:
+                    if ev.loops:
+                        by_loop.setdefault(ev.loops[0].n, []).append((ev, c, d))
+                for group in by_loop.values():
+                    lc = group[0][0].loops[0]
                     if lc.elem is None or not lc.elem.meta or lc.elem.meta[0] != p:
                         continue
                     skip = f_or([atom("{} == {}".format(*sorted([lc.elem.key, q]))) for q in scalars])
                     if lc.filt is not None and S.sat(f_and([f_not(lc.filt[1]), f_not(skip)])):
-                        filtered_out = (ev, lc)
+                        filtered_out = (group[0][0], lc)
                         continue  # the loop runs over a filtered copy that drops more than the elements equal to a scalar filter
-                    if all(not o.loops and must(o.path, lc.pre_path) for o in rets) and must(tuple(lc.pre_path) + (lc.iter_atom, f_not(skip)), ev.path):
-                        good = ev
+                    inside = [(ev, c, d) for ev, c, d in group if len(ev.loops) == 1]
+                    if all(not o.loops and must(o.path, lc.pre_path) for o in rets) and inside and implies_path(tuple(lc.pre_path) + (lc.iter_atom, f_not(skip)), _iteration_proves(lc, inside)):
+                        good = inside[0]
                         break
                 ok = good is not None
                 if ok:
-                    detail = f"every element of `{p}` is handed to networkx' raising {good.name}() on every path (skipped at most when equal to {' / '.join(scalars) or 'nothing'}, which is looked up itself)"
+                    detail = f"every element of `{p}` is handed to {" / ".join(sorted({d for _e, _c, d in inside}))} on every path (skipped at most when equal to {' / '.join(scalars) or 'nothing'}, which is looked up itself)"
                 else:
                     detail = f"an element of `{p}` can escape the raising graph lookup"
                     if filtered_out is not None:
                         detail += f": the loop `{header(filtered_out[1].node)[:60]}` only sees the elements that satisfy `{show(filtered_out[1].filt[1])[:160]}`, which drops more than the element equal to {' / '.join(scalars) or 'a scalar filter'}"
             if not ok:
+                hand = _handoffs(sym, p)
+                if not mine and hand:
+                    res.undecide("C13.R6", f"{fi.relpath}::{fi.qualname}::lookup of {p}", f"`{p}` is handed to `{norm(hand[0].node, 60)}` in {hand[0].ctx.qualname}, which the symbolic run could not follow, and no graph lookup of it was seen: the lookup may happen in there", where(hand[0].ctx, hand[0].node))
+                    continue
                 if mine and not live:
                     detail += f": the error of `{norm(mine[0].node, 50)}` for an unknown node is caught by a handler ({', '.join(sorted(set(mine[0].handlers) & CATCHES_LOOKUP))})"
                 elif live:
-                    detail += f" (the lookup `{norm(live[0].node, 40)}` in {live[0].ctx.qualname} only happens under `{show(live[0].cond)[:160]}`)"
+                    detail += f" (the lookup `{norm(live[0][0].node, 40)}` in {live[0][0].ctx.qualname} only happens under `{show(live[0][1])[:160]}`)"
                 detail += " - a rule naming a module that does not exist gets a verdict instead of a lookup error"
             res.add("C13.R6", f"{fi.relpath}::{fi.qualname}::lookup of {p}", ok, detail, loc, kind="dominance")
     res.floor("C13.R6", 3, n)
+
+
+def _iteration_proves(lc: S.LoopCtx, inside: list) -> Formula:
+    """Disjunction of the conditions (relative to the whole path) under which one iteration of `lc` has certified its element."""
+    return f_or([c for _ev, c, _d in inside])
 
 
 # --------------------------------------------------------------------------- R3 / R4: who raises AssertionError, who catches what
